@@ -75,3 +75,39 @@ def run(ctx):
                   f"DynGroup::{fn_} " + ("no longer calls apply_dyngroup_change" if not cs else
                                          "can return success after apply_dyngroup_change was called without propagating its result") + f" — {WHY}",
                   file=rec["file"], line=rec["line"])
+    dyngroup_cache_follows_the_entry(ctx)
+
+
+# ---------------------------------------------------------------------------------------------------------------------
+# Later creates / modifies of candidate entries are matched against the *cached* parsed filter of every dynamic group
+# (DynGroupCache.insts). The cache is only the entry's filter if apply_dyngroup_change overwrites the cached value whenever it
+# (re)processes a dynamic group. (added after seeded change C18: `insts.entry(uuid).or_insert(scope_i)` keeps the OLD filter when
+# a group's dyngroup_filter is modified)
+
+def dyngroup_cache_follows_the_entry(ctx):
+    from .lib.hir import walk, unwrap
+    R = "K4-dyngroup-cache-overwritten"
+    f = ctx.fn(LIB, "kanidmd_lib::plugins::dyngroup::DynGroup::apply_dyngroup_change")
+
+    def on_insts(n):
+        r = unwrap(n.get("recv", {}))
+        while isinstance(r, dict):
+            if r.get("e") == "field":
+                if r.get("f") == "insts":
+                    return True
+                r = unwrap(r["x"])
+            elif r.get("e") == "mcall":
+                r = unwrap(r["recv"])
+            else:
+                return False
+        return False
+
+    inserts = [n for n in walk(f["body"]) if n.get("e") == "mcall" and n.get("name") == "insert" and on_insts(n)]
+    keep_old = [n for n in walk(f["body"]) if n.get("e") == "mcall" and n.get("name") in ("or_insert", "or_insert_with", "or_default", "try_insert", "or_insert_with_key")
+                and on_insts(n)]
+    ctx.check(len(inserts) >= 1 and not keep_old, R, f["fn"], "insts-overwritten-with-parsed-filter",
+              "dyn_groups.insts.insert(uuid, <parsed filter>)",
+              "apply_dyngroup_change " + ("keeps an existing cache entry (`" + keep_old[0]["name"] + "`)" if keep_old else "no longer inserts the parsed filter into the cache") +
+              ": after a dynamic group's filter is modified the cache still holds the OLD filter, so entries created or modified afterwards are matched against "
+              "it — new matches are not added as members and entries that only match the old filter are", file=f["file"],
+              line=(keep_old or [f])[0].get("line"))
